@@ -2,7 +2,7 @@
 import lark
 from hypothesis import strategies as st
 
-from ndn.app_support.light_versec import Checker, LvsModelError, SemanticError, compile_lvs
+from ndn.app_support.light_versec import DEFAULT_USER_FNS, Checker, LvsModelError, SemanticError, compile_lvs
 
 from .. import lvs_gen as G
 from ..core import Result, SubCheck
@@ -80,6 +80,7 @@ def run_case(case):
     sch = case['schema']
     text = L.render(sch, case.get('style', 0), case.get('moves', ()))
     fns = G.user_fns()
+    lib_fns = {**fns, **DEFAULT_USER_FNS}       # the library runs with the $eq / $eq_type it ships; the reference with its own
     if chain_count(sch) > MAX_CHAINS:
         r.discarded = True      # expansion is exponential in repeated references; keep cases small (counted)
         return r
@@ -90,11 +91,11 @@ def run_case(case):
             # validate_user_fns() is there to check), and one of them is replaced once more
             given = {}
             checker = Checker(model, given)
-            given.update(fns)
+            given.update(lib_fns)
             given['$first_a'] = lambda c, args: False
             checker.user_fns['$first_a'] = fns['$first_a']
         else:
-            checker = Checker(model, fns)
+            checker = Checker(model, lib_fns)
     except SemanticError as e:
         if 'never occurs before' in str(e) or 'Loop detected' in str(e):
             # (a) pattern numbered later by the compiler; (b) node-level signing cycle, e.g. two rules with the same name
@@ -103,15 +104,14 @@ def run_case(case):
             return r
         return r.bad('C11/compile-refused-wellformed/SemanticError', f'{e} :: {text}')
     except LvsModelError as e:
-        # node-level signing cycle (two rules with identical name pattern signing each other): outside C11
-        r.discarded = True
-        return r
+        # the loader's sanity rules refuse what the library's own compiler produced from a well-formed schema
+        return r.bad('C11/compile-refused-wellformed/LvsModelError', f'{e} :: {text}')
     except lark.LarkError as e:
         return r.bad('C11/harness-render', f'{e} :: {text}')
     except Exception as e:
         return r.bad(f'C11/compile-raised/{type(e).__name__}', f'{e!r} :: {text}')
     try:
-        loaded = Checker.load(checker.save(), fns)
+        loaded = Checker.load(checker.save(), lib_fns)
     except Exception as e:
         return r.bad(f'C11/save-load-raised/{type(e).__name__}', f'{e!r} :: {text}')
     ex = L.expand(sch)
@@ -255,7 +255,7 @@ SUBCHECKS = {
                                     note='family-mode schemas whose literals a / 32=a / 33=a are equal in value and differ only in component type'),
     'schemas-templated': SubCheck(run_case, strategy=lambda tier: st.fixed_dictionaries({
         'schema': G.templated_schema(), 'style': st.integers(0, 5), 'moves': st.just([])}),
-        examples={'quick': 200, 'thorough': 4000}, note='see C12'),
+        examples={'quick': 320, 'thorough': 5000}, note='see C12'),
     'schemas-many-patterns': SubCheck(run_case, strategy=lambda tier: _case('many'), examples={'quick': 250, 'thorough': 5000},
                                       note='14 pattern names: pattern numbers reach two digits'),
 }
